@@ -319,6 +319,14 @@ def oracles(ctx, deep):
             sc_h = max(1.0, float(grad_h.abs().max()))
             if not torch.allclose(blk_h, grad_h, atol=2e-4 * sc_h, rtol=1e-4):
                 add(Violation("likelihood-gradient", "MRILogLikelihood called a second time on the same instance, with the sampling mask refilled in place, differs from the gradient for the new mask (max diff %.3g, scale %.3g) for %s" % (float((blk_h - grad_h).abs().max()), sc_h, cfg), {"config": cfg, "history": "mask refilled in place"}, {"fn": "MRILogLikelihood-history", "centered": centered}))
+            # ... and of the scaling given now: a call with loglikelihood_scaling, then one without, on the same instance
+            sc_val = rng.choice([0.25, 4.0, 0.5])
+            blk_s = ll(x.permute(0, 3, 1, 2), y, S, mask, torch.full((N,), sc_val)).permute(0, 2, 3, 1)
+            blk_n = ll(x.permute(0, 3, 1, 2), y, S, mask).permute(0, 2, 3, 1)
+            if not torch.allclose(blk_s, sc_val * grad, atol=2e-4 * scale * max(1.0, sc_val), rtol=1e-4):
+                add(Violation("likelihood-gradient", "MRILogLikelihood with loglikelihood_scaling %g differs from %g times the gradient (max diff %.3g, scale %.3g) for %s" % (sc_val, sc_val, float((blk_s - sc_val * grad).abs().max()), scale, cfg), {"config": cfg, "loglikelihood_scaling": sc_val}, {"fn": "MRILogLikelihood-scaling", "centered": centered}))
+            if not torch.allclose(blk_n, grad, atol=2e-4 * scale, rtol=1e-4):
+                add(Violation("likelihood-gradient", "MRILogLikelihood called without a scaling after a call with loglikelihood_scaling %g on the same instance differs from the gradient (max diff %.3g, scale %.3g) for %s" % (sc_val, float((blk_n - grad).abs().max()), scale, cfg), {"config": cfg, "history": "a call with loglikelihood_scaling %g, then a call without" % sc_val}, {"fn": "MRILogLikelihood-history", "centered": centered, "kind": "scaling"}))
             ycons = fwd(T.expand_operator(x, S, dim=1), dim=(2, 3))
             z0 = ll(x.permute(0, 3, 1, 2), ycons, S, mask)
             if float(z0.abs().max()) > 1e-3 * max(1.0, float(ycons.abs().max())):
